@@ -18,9 +18,39 @@ import (
 
 var log = logging.Logger("autoconf")
 
-// writeOwnerOnlyFile writes data to a file with owner-only permissions (0600)
+// writeOwnerOnlyFile writes data to a file with owner-only permissions (0600).
+//
+// The write is atomic: data goes to a temporary file in the same directory
+// which is renamed over filename only once it has been written completely. A
+// process that stops half way leaves filename untouched (or absent), never
+// truncated. The temporary name does not match the cache file pattern, so a
+// leftover is never mistaken for a cached config.
 func writeOwnerOnlyFile(filename string, data []byte) error {
-	return os.WriteFile(filename, data, filePermOwnerReadWrite)
+	// os.CreateTemp creates the file with mode 0600 (filePermOwnerReadWrite)
+	tmp, err := os.CreateTemp(filepath.Dir(filename), ".tmp-*")
+	if err != nil {
+		return err
+	}
+	tmpName := tmp.Name()
+	if _, err := tmp.Write(data); err != nil {
+		_ = tmp.Close()
+		_ = os.Remove(tmpName)
+		return err
+	}
+	if err := tmp.Sync(); err != nil {
+		_ = tmp.Close()
+		_ = os.Remove(tmpName)
+		return err
+	}
+	if err := tmp.Close(); err != nil {
+		_ = os.Remove(tmpName)
+		return err
+	}
+	if err := os.Rename(tmpName, filename); err != nil {
+		_ = os.Remove(tmpName)
+		return err
+	}
+	return nil
 }
 
 const (
